@@ -620,6 +620,105 @@ Section SchedProofs.
   Lemma LSim_init : LSim (ls_init K bot) (rs_init K bot).
   Proof. constructor; cbn; auto. Qed.
 
+  (** ** pickling, exact: __setstate__ re-inserts the array in level order, which never bubbles, so
+      the heap array read through lib.entry after unpickling is entry by entry the one before. *)
+  Definition level_ordered (l : list entry) : Prop :=
+    forall j e p, 1 <= j < length l -> nth_error l j = Some e ->
+      nth_error l ((j + 1) / 2 - 1) = Some p -> le (ekey p) (ekey e).
+
+  Definition Arr (h : heap) (l : list entry) : Prop :=
+    heap_inv h /\ ((hlen h = 0 /\ l = []) \/ hlen h = S (length l)) /\
+    forall j, j < length l -> cget (entries h) (S j) = nth_error l j.
+
+  Lemma half_le : forall n, 1 <= n -> 1 <= (n + 1) / 2 <= n.
+  Proof.
+    intros n Hn. pose proof (Nat.div_mod (n + 1) 2 ltac:(lia)) as D.
+    pose proof (Nat.mod_upper_bound (n + 1) 2 ltac:(lia)). lia.
+  Qed.
+
+  Lemma rebuild_exact : forall l2 l1 h, level_ordered (l1 ++ l2) -> Forall entry_ok l2 -> Arr h l1 ->
+    exists h', rebuild h l2 = Some h' /\ Arr h' (l1 ++ l2).
+  Proof.
+    induction l2 as [|e r IH]; intros l1 h Hlo Hall HA.
+    - exists h. rewrite app_nil_r. split; [reflexivity|exact HA].
+    - inversion Hall as [|? ? (Hhd & Hg) Hall']; subst. cbn [Sched.rebuild].
+      destruct (ehd e) as [hd|] eqn:Ehd; [|congruence].
+      destruct HA as (Hinv & Hlen & Hcells).
+      set (n := length l1) in *.
+      assert (Hpos : (if hlen h =? 0 then 1 else hlen h) = S n).
+      { destruct Hlen as [(H0 & ->)|H1]; [rewrite H0; reflexivity|rewrite H1; reflexivity]. }
+      destruct (insert_append K ltb bot good ltb_asym le_trans_hyp bot_least bot_good
+                  h (ekey e) hd (ectr e) Hinv Hg) as (h1 & Hins & Hinv1 & Hlen1 & Hfr1 & Hnew1).
+      { intros pe H2 Hpe.
+        assert (Hn : hlen h = S n /\ 1 <= n).
+        { destruct Hlen as [(H0 & _)|H1]; [lia|]. split; [exact H1|lia]. }
+        destruct Hn as (Hh & Hn1). pose proof (half_le n Hn1) as Hhalf.
+        apply (Hlo n e pe).
+        - rewrite app_length. cbn. fold n. lia.
+        - rewrite nth_error_app2 by (fold n; lia). fold n. rewrite Nat.sub_diag. reflexivity.
+        - rewrite nth_error_app1 by (fold n; lia).
+          rewrite <- Hcells by (fold n; lia).
+          replace (S ((n + 1) / 2 - 1)) with ((n + 1) / 2) by lia.
+          rewrite Hh in Hpe. replace (n + 1) with (S n) by lia. exact Hpe. }
+      rewrite Hpos in *.
+      rewrite Hins. cbn [obind].
+      rewrite (entry_eta e hd Ehd) in Hnew1.
+      destruct (IH (l1 ++ [e]) h1) as (h' & Hrun & HA').
+      { rewrite <- app_assoc. exact Hlo. }
+      { exact Hall'. }
+      { split; [exact Hinv1|]. split.
+        - right. rewrite app_length. cbn. fold n. lia.
+        - intros j Hj. rewrite app_length in Hj. cbn in Hj. fold n in Hj.
+          destruct (Nat.eq_dec j n) as [->|Hjn].
+          + rewrite Hnew1. rewrite nth_error_app2 by (fold n; lia). fold n. rewrite Nat.sub_diag. reflexivity.
+          + rewrite Hfr1 by lia. rewrite nth_error_app1 by (fold n; lia). apply Hcells. fold n. lia. }
+      exists h'. split; [exact Hrun|]. rewrite <- app_assoc in HA'. exact HA'.
+  Qed.
+
+  Lemma nth_error_ext_eq : forall (A : Type) (l l' : list A), (forall j, nth_error l j = nth_error l' j) -> l = l'.
+  Proof.
+    induction l as [|x r IH]; intros [|y r'] H.
+    - reflexivity.
+    - specialize (H 0); discriminate.
+    - specialize (H 0); discriminate.
+    - pose proof (H 0) as H0. cbn in H0. inversion H0; subst. f_equal. apply IH. intros j. apply (H (S j)).
+  Qed.
+
+  Lemma getstate_level : forall h l, heap_inv h -> getstate_loop (S (hlen h)) h 0 = Some l -> level_ordered l.
+  Proof.
+    intros h l Hinv Hget.
+    destruct (getstate_spec h Hinv (S (hlen h)) 0 ltac:(lia) ltac:(lia)) as (l' & Hrun & _ & Hnth).
+    rewrite Hget in Hrun. inversion Hrun; subst l'.
+    intros j e p Hj He Hp. rewrite Hnth in He, Hp.
+    destruct (Nat.ltb_spec (0 + 1 + j) (hlen h)) as [L1|L1]; [|discriminate].
+    destruct (Nat.ltb_spec (0 + 1 + ((j + 1) / 2 - 1)) (hlen h)) as [L2|L2]; [|discriminate].
+    pose proof (half_le j ltac:(lia)) as Hhalf.
+    replace (0 + 1 + ((j + 1) / 2 - 1)) with ((j + 1) / 2) in Hp by lia.
+    replace (0 + 1 + j) with (j + 1) in He by lia.
+    destruct Hinv as (_ & [(H0 & _)|(H1 & H2 & H3 & H4 & H5)]); [lia|].
+    apply (H5 (j + 1) e p); auto; lia.
+  Qed.
+
+  Theorem pickle_exact : forall h, heap_inv h ->
+    exists l h', getstate_loop (S (hlen h)) h 0 = Some l /\ rebuild empty_heap l = Some h' /\
+                 heap_inv h' /\ getstate_loop (S (hlen h')) h' 0 = Some l.
+  Proof.
+    intros h Hinv.
+    destruct (getstate_spec h Hinv (S (hlen h)) 0 ltac:(lia) ltac:(lia)) as (l & Hget & Hall & Hnth).
+    pose proof (getstate_level h l Hinv Hget) as Hlo.
+    destruct (rebuild_exact l [] empty_heap Hlo Hall) as (h' & Hreb & Hinv' & Hlen' & Hcells').
+    { split; [apply empty_heap_inv|]. split; [left; split; reflexivity|]. intros j Hj; cbn in Hj; lia. }
+    cbn [app] in *.
+    exists l, h'. split; [exact Hget|]. split; [exact Hreb|]. split; [exact Hinv'|].
+    destruct (getstate_spec h' Hinv' (S (hlen h')) 0 ltac:(lia) ltac:(lia)) as (l' & Hget' & _ & Hnth').
+    rewrite Hget'. f_equal. apply nth_error_ext_eq. intros j. rewrite Hnth'.
+    destruct Hlen' as [(H0 & ->)|H1].
+    - rewrite H0. destruct j; reflexivity.
+    - rewrite H1. destruct (Nat.ltb_spec (0 + 1 + j) (S (length l))) as [L|L].
+      + replace (0 + 1 + j) with (S j) by lia. apply Hcells'. lia.
+      + symmetry. apply nth_error_None. lia.
+  Qed.
+
   (** ** Corollaries from the initial states *)
   Corollary reach_R : forall ops, Forall good_op ops ->
     exists s outs, hs_run (hs_init K bot) ops = Some (s, outs) /\
@@ -666,6 +765,54 @@ Section SchedProofs.
 
   Lemma ls_get_empty : forall last, snd (ls_get K ltb (mkLS [] last)) = OExc ExEmpty.
   Proof. reflexivity. Qed.
+
+  (** After ANY sequence of operations (pushed times not NaN) the heap scheduler is in a state where
+      no memory fault is possible and the next get_succeeding_event returns a minimal finite live
+      event of the reference list [l] (pushes minus trashes) — or the right scheduler error. *)
+  Theorem get_after_run : forall ops, Forall good_op ops ->
+    exists s outs, hs_run (hs_init K bot) ops = Some (s, outs) /\ heap_inv (hs_heap s) /\
+      let l := rs_live (fst (rs_run (rs_init K bot) ops)) in
+      exists s' out, hs_get s = Some (s', out) /\ heap_inv (hs_heap s') /\
+        (((forall x, In x l -> ~ finite (fst x)) /\ out = OExc ExEmpty) \/
+         (exists t hd, In (t, hd) l /\ finite t /\
+            (forall x, In x l -> finite (fst x) -> le t (fst x)) /\
+            ((ltb t (hs_last s) = true /\ out = OExc ExDecreasing) \/
+             (ltb t (hs_last s) = false /\ out = OGot hd t)))).
+  Proof.
+    intros ops Hops. destruct (reach_R ops Hops) as (s & outs & Hrun & HR & _).
+    exists s, outs. split; [exact Hrun|]. split; [apply HR|]. cbv zeta.
+    destruct (R_get s _ HR) as (s' & out & Hget & HR' & Hcase).
+    exists s', out. split; [exact Hget|]. split; [apply HR'|].
+    destruct Hcase as [(H1 & H2 & _)|(t & hd & H1 & H2 & H3 & H4)]; [left; auto|right].
+    exists t, hd. repeat (split; [assumption|]).
+    destruct H4 as [(A & B & _)|(A & B & _)]; [left|right]; auto.
+  Qed.
+
+  Corollary empty_error_run : forall ops, Forall good_op ops ->
+    (forall x, In x (rs_live (fst (rs_run (rs_init K bot) ops))) -> ~ finite (fst x)) ->
+    exists s outs s', hs_run (hs_init K bot) ops = Some (s, outs) /\ hs_get s = Some (s', OExc ExEmpty).
+  Proof.
+    intros ops Hops Hnone. destruct (get_after_run ops Hops) as (s & outs & Hrun & _ & s' & out & Hget & _ & Hcase).
+    exists s, outs, s'. split; [exact Hrun|].
+    destruct Hcase as [(_ & ->)|(t & hd & Hin & Hf & _)]; [exact Hget|].
+    exfalso. apply (Hnone (t, hd) Hin Hf).
+  Qed.
+
+  Corollary no_oob_run : forall ops, Forall good_op ops ->
+    exists s outs, hs_run (hs_init K bot) ops = Some (s, outs) /\ heap_inv (hs_heap s) /\
+                   length outs = length ops.
+  Proof.
+    intros ops Hops. destruct (reach_R ops Hops) as (s & outs & Hrun & HR & Hlen).
+    exists s, outs. split; [exact Hrun|]. split; [apply HR|exact Hlen].
+  Qed.
+
+  Corollary heap_refines_ref_init : forall ops, proto_run proto (rs_init K bot) ops ->
+    exists s outs, hs_run (hs_init K bot) ops = Some (s, outs) /\
+                   Forall2 out_equiv outs (snd (rs_run (rs_init K bot) ops)).
+  Proof.
+    intros ops Hp. destruct (heap_refines_ref ops _ _ Sim_init Hp) as (s & outs & Hrun & _ & Hall).
+    exists s, outs. auto.
+  Qed.
 
 End SchedProofs.
 
